@@ -106,6 +106,47 @@ func (c *OrgCase) Judge(rs []Res, env *Env) Outcome {
 
 func init() { registerKind("org", func() Case { return &OrgCase{} }) }
 
+// addDollarEqus: names that capture `$` (`HERE EQU $`), on the first line of the program (directly after the ORG line) and at a
+// seeded place further down, used from data and MOV statements elsewhere.  A label at the same place tells the walker what the
+// name stands for.
+func addDollarEqus(r *Rand, p *Prog) {
+	places := []int{0}
+	if len(p.Stmts) > 2 {
+		places = append(places, r.Range(1, len(p.Stmts)-1))
+	}
+	if r.Chance(1, 3) {
+		places = places[1:]
+	}
+	for n := len(places) - 1; n >= 0; n-- {
+		at := places[n]
+		lab, name := fmt.Sprintf("HL%d", n), fmt.Sprintf("HERE%d", n)
+		ins := []PStmt{{K: "label", Label: lab}, {K: "equ", Label: name, Text: "$", Tag: "EQU"}}
+		if r.Chance(1, 3) {
+			ins = append(ins, PStmt{K: "equ", Label: name + "B", Text: name, Tag: "EQU"})
+			name += "B"
+		}
+		uses := []PStmt{
+			{K: "data", W: 2, Items: []DItem{{Kind: "label", Label: lab, Text: name}}},
+			{K: "movl", Reg: probeReg(16, r.Intn(8)), Label: lab, Text: name},
+			{K: "data", W: 4, Items: []DItem{{Kind: "label", Label: lab, Text: name}, numItem(int64(r.Intn(100)), 0)}},
+		}
+		Shuffle(r, uses)
+		uses = uses[:r.Range(1, 3)]
+		st := append([]PStmt{}, p.Stmts[:at]...)
+		st = append(st, ins...)
+		// the uses go somewhere after the definition, before the final label
+		rest := append([]PStmt{}, p.Stmts[at:]...)
+		k := 0
+		if len(rest) > 1 {
+			k = r.Intn(len(rest))
+		}
+		st = append(st, rest[:k]...)
+		st = append(st, uses...)
+		st = append(st, rest[k:]...)
+		p.Stmts = st
+	}
+}
+
 var c16Origins = []int64{-1, 0, 0x100, 0x7c00, 0xc200, 0x8000, 0xfff0}
 
 func init() {
@@ -119,6 +160,9 @@ func init() {
 		var cases []Case
 		for i := 0; i < n; i++ {
 			p, _ := genLabelled(r, 16, -1, genOpts{Equs: i%3 == 0, Jumps: true})
+			if i%2 == 1 {
+				addDollarEqus(r, p)
+			}
 			var orgs []int64
 			if env.Tier == "thorough" {
 				orgs = append(orgs, c16Origins...)
@@ -130,7 +174,7 @@ func init() {
 			}
 			cases = append(cases, &OrgCase{P: *p, Orgs: orgs, Cell_: fmt.Sprintf("ref=%d stmts=%d", orgs[0], len(p.Stmts)/10)})
 		}
-		rep.Rule = "seeded 16-bit programs from the size-clean pool with label-target branches, MOV r,label, DW/DD label, DW $, MOV r,$, ALIGNB <= 16, EQUs; each assembled at origins from {none, 0, 0x100, 0x7c00, 0xc200, 0x8000, 0xfff0} (thorough: all 7, quick: 4); " +
+		rep.Rule = "seeded 16-bit programs from the size-clean pool with label-target branches, MOV r,label, DW/DD label, DW $, MOV r,$, ALIGNB <= 16, EQUs, and (every second program) names defined as `EQU $` on the first line after ORG and further down, used from DW/DD/MOV elsewhere; each assembled at origins from {none, 0, 0x100, 0x7c00, 0xc200, 0x8000, 0xfff0} (thorough: all 7, quick: 4); " +
 			"constructs whose size legitimately depends on absolute values (RESB x-$, numeric branch targets) are excluded; oracle: the walker marks the byte ranges holding absolute label/$ values in the reference image; every other image has the same length, identical bytes outside those ranges (so relative displacements are unchanged) and value_b - value_a = b - a inside them; no ORG == ORG 0; distinct = (reference origin, size bucket) cells"
 		outs := RunCases(env, cases)
 		xcheckProg(env, rep, outs)
